@@ -128,6 +128,24 @@ static void occ_del(uintptr_t sn) {
 /* flushed at once: a corrupted allocator may crash or hang right after the first failure */
 #define FAILF(...) do { nfail++; if (nfail <= 20) { printf("FAIL "); printf(__VA_ARGS__); printf("\n"); fflush(stdout); } } while (0)
 
+/* span layer, observable consequences of the invariant of coq/C19/ProofsSpans.v: the span of a live
+   block lies inside a mapping that is still mapped, whose master still counts it in remaining_spans */
+static void check_span_layer(span_t *span, int slot) {
+  if (span->size_class == SIZE_CLASS_HUGE) return;   /* mapped on its own, no master */
+  span_t *master = (span->flags & SPAN_FLAG_MASTER) ? span
+                 : (span_t *)((char *)span - (size_t)span->offset_from_master * _memory_span_size);
+  size_t i;
+  for (i = 0; i < nregions; i++) if (regions[i].addr == (void *)master) break;
+  if (i == nregions) { FAILF("span-not-in-a-mapped-region op=%" PRIu64 " slot=%d span=%p master=%p", opno, slot, (void *)span, (void *)master); return; }
+  size_t cnt = span->span_count;
+  if ((char *)span + cnt * _memory_span_size > (char *)master + regions[i].size)
+    FAILF("span-exceeds-its-region op=%" PRIu64 " slot=%d span_count=%zu region=%zu", opno, slot, cnt, regions[i].size);
+  if (!(master->flags & SPAN_FLAG_MASTER) || (size_t)master->total_spans * _memory_span_size != regions[i].size)
+    FAILF("master-span-corrupted op=%" PRIu64 " slot=%d total_spans=%u region=%zu", opno, slot, master->total_spans, regions[i].size);
+  if (master->remaining_spans < (int32_t)cnt)
+    FAILF("remaining-spans-below-live-span op=%" PRIu64 " slot=%d remaining=%d span_count=%zu", opno, slot, master->remaining_spans, cnt);
+}
+
 /* property oracle for one returned block; registers it in the occupancy map */
 static void check_new_block(int slot, unsigned char *p, size_t nsize, int reg) {
   uintptr_t a = (uintptr_t)p;
@@ -136,6 +154,7 @@ static void check_new_block(int slot, unsigned char *p, size_t nsize, int reg) {
   if (us < nsize) FAILF("usable-too-small op=%" PRIu64 " slot=%d nsize=%zu usable=%zu", opno, slot, nsize, us);
   span_t *span = (span_t *)(a & _memory_span_mask);
   uintptr_t sn = (uintptr_t)span >> _memory_span_size_shift;
+  check_span_layer(span, slot);
   if (span->size_class < SIZE_CLASS_COUNT) {
     size_t off = (size_t)(a - (uintptr_t)span);
     uint32_t bs = span->block_size, bc = span->block_count;
